@@ -133,9 +133,12 @@ func (p *Processor[K, T]) process(isNext bool) {
 
 // Processing loop.
 func (p *Processor[K, T]) processLoop() {
+	released := false
 	defer func() {
-		// Release the channel when exiting
-		<-p.processorRunningCh
+		// Release the channel when exiting, unless that was done already (queue empty)
+		if !released {
+			<-p.processorRunningCh
+		}
 	}()
 
 	var (
@@ -150,10 +153,17 @@ func (p *Processor[K, T]) processLoop() {
 		// Continue processing items until the queue is empty
 		p.lock.Lock()
 		r, ok = p.queue.Peek()
-		p.lock.Unlock()
 		if !ok {
+			// The queue is empty: release the running token before releasing the lock.
+			// Otherwise an Enqueue that gets the lock before this goroutine has released
+			// the token would find the processor "already running" and not start a new
+			// loop, leaving its item in the queue with nothing to process it.
+			<-p.processorRunningCh
+			released = true
+			p.lock.Unlock()
 			return
 		}
+		p.lock.Unlock()
 
 		// Check if after obtaining the lock we have a stop or reset signals
 		// Do this before we create a timer
